@@ -240,7 +240,8 @@ func runConcurrent(args []string) error {
 						}
 					case x < 30:
 						c = helpers[gr.Intn(len(helpers))]
-					case x < 38 && x >= 33:
+					case (x < 38 && x >= 33) || (k >= len(shared) && k < len(shared)+4):
+						// (every goroutine's first calls after the shared validators are first uses of patterns too: a burst of cache misses)
 						// a pattern nobody has used before (valid or invalid): concurrent FIRST uses go through the cache insert paths
 						pat := fmt.Sprintf("^r%dg%dk%d[a-z]", round, g, k)
 						if gr.Intn(2) == 0 {
